@@ -20,6 +20,7 @@ func init() {
 				{K: "tick", Arg: 0}, {K: "tick", Arg: 1}, {K: "tick", Arg: 2}, {K: "tick", Arg: 3},
 				{K: "resp", I: 0}, {K: "failwrite"}, {K: "close"},
 				{K: "garbage", Arg: 3}, // a datagram with A's id whose first attribute overruns: dropped, the schedule goes on
+				{K: "readerr", Arg: 3}, // the peer's port was unreachable a moment ago (ICMP, reported by Read): nothing is re-sent for that
 			}
 			eps := []string{"drain+close", "close"}
 			cliHistories(c, "C11", cliOpts{MsgSize: []int{2052}}, alpha, depth, eps, "H")
@@ -30,7 +31,7 @@ func init() {
 			cliHistories(c, "C11", cliOpts{MsgSize: []int{24}, StaleFields: true}, alpha, depth-2, eps, "Hstale")
 			// time scales: early ticks (the collector fires between deadlines), and RTOs of 2 minutes, 100 and 250 years
 			// (deadlines beyond what a 64-bit nanosecond count since 1970 can hold)
-			slow := []cliEv{{K: "start", I: 0}, {K: "tick", Arg: 4}, {K: "tick", Arg: 5}, {K: "tick", Arg: 0}, {K: "tick", Arg: 1}, {K: "resp", I: 0}, {K: "failwrite"}, {K: "failwrite", Arg: 1}, {K: "garbage", Arg: 2}, {K: "garbage", Arg: 4}}
+			slow := []cliEv{{K: "start", I: 0}, {K: "tick", Arg: 4}, {K: "tick", Arg: 5}, {K: "tick", Arg: 0}, {K: "tick", Arg: 1}, {K: "resp", I: 0}, {K: "failwrite"}, {K: "failwrite", Arg: 1}, {K: "garbage", Arg: 2}, {K: "garbage", Arg: 4}, {K: "readerr", Arg: 5}}
 			cliHistories(c, "C11", cliOpts{MsgSize: []int{2052}}, slow, depth, eps, "Hearly")
 			// a clock that is stepped back: what the collector saw before the step says nothing about transactions
 			// started after it
@@ -104,7 +105,7 @@ func init() {
 				{K: "resp", I: 0}, {K: "resp", I: 1}, {K: "resp", I: 2},
 				{K: "resp", I: 0, Arg: 1}, {K: "resp", I: 1, Arg: 2}, {K: "unknown"}, {K: "unknown", Arg: 1},
 				{K: "garbage", Arg: 0}, {K: "garbage", Arg: 1}, {K: "garbage", Arg: 2}, {K: "garbage", Arg: 3}, {K: "garbage", Arg: 4}, {K: "garbage", Arg: 5}, {K: "garbage", Arg: 6},
-				{K: "resp", I: 2, Arg: 3}, {K: "tick", Arg: 1}, {K: "failagent"}, {K: "readerr", Arg: 3}, {K: "readerr", Arg: 0},
+				{K: "resp", I: 2, Arg: 3}, {K: "tick", Arg: 1}, {K: "failagent"}, {K: "readerr", Arg: 3}, {K: "readerr", Arg: 0}, {K: "failprocess"},
 			}
 			eps := []string{"drain+close"}
 			cliHistories(c, "C12", cliOpts{Fallback: true, PoolFanout: true}, alpha, depth-1, eps, "Hfb")
